@@ -6,5 +6,5 @@ CONSTANTS
   SigBug = "none"
   NB = 2
 VIEW SView
-INVARIANTS TypeOK LawUnregisterOnce LawOwnership LawCalledAreLive LawCallExplained
+INVARIANTS TypeOK LawUnregisterOnce LawOwnership LawCalledAreLive LawCallExplained LawDyingView
 CHECK_DEADLOCK FALSE
